@@ -134,6 +134,9 @@ def run(prog, chk):
                             ini_ = q.single_def(f, x_["ref"]["id"], defs)
                             if ini_ is not None and (blk + "->str") in q.no_casts(f.r(ini_)):
                                 nul.append(t.node)
+                            elif any(q.no_casts(f.r(u_.lhs)) == blk + "->str" and u_.rhs is not None and
+                                     q.no_casts(f.r(u_.rhs)) == x_["ref"]["n"] for u_ in q.stores(f)):
+                                nul.append(t.node)      # the alias IS what the block's text pointer was set from (`blk->str = newStr`)
             # vsnprintf into the block with a size that includes the terminator also terminates it
             for c in q.calls(f):
                 if f.nodes[c].get("callee") in ("vsnprintf", "snprintf") and blk + "->str" in q.no_casts(f.r(c)):
@@ -784,6 +787,13 @@ def text_pointer_sources(prog, chk, rid):
                 nx_ = f.strip(rn["c"][0])
                 rn = f.nodes[nx_] if nx_ != rn["i"] else f.nodes[rn["c"][0]]
             own = False
+            if rn["k"] == "DeclRefExpr" and rn["ref"].get("dk") == "local":      # `char* const newStr = (char*)((byte*)newData + sizeof(Data)); newData->str = newStr;`
+                ini_n = q.single_def(f, rn["ref"]["id"], q.local_defs(f))
+                if ini_n is not None:
+                    rn = f.nodes[f.strip(ini_n)]
+                    while rn["k"] in ("CStyleCastExpr", "ImplicitCastExpr", "ParenExpr", "CXXStaticCastExpr", "CXXReinterpretCastExpr") and rn["c"]:
+                        nx_ = f.strip(rn["c"][0])
+                        rn = f.nodes[nx_] if nx_ != rn["i"] else f.nodes[rn["c"][0]]
             if rn["k"] == "BinaryOperator" and rn.get("op") == "+" and len(rn["c"]) == 2:
                 sides = [q.no_casts(f.r(c_)).replace(" ", "") for c_ in rn["c"]]
                 own = base.replace(" ", "") in sides and "sizeof(String::Data)" in sides
